@@ -188,6 +188,16 @@ func MakeVariant(prop string, h []Action, seed int64) ([]Action, *VariantInfo) {
 	return hv, vi
 }
 
+// isPlainPredeclared: a predeclared type, constant or nil (not a built-in FUNCTION: Recover() renders `recover()`)
+func isPlainPredeclared(name string) bool {
+	o := types.Universe.Lookup(name)
+	if o == nil {
+		return false
+	}
+	_, isBuiltin := o.(*types.Builtin)
+	return !isBuiltin
+}
+
 // randomForms: a form for every node, reproducible from the seed. Func variants only where the API has them.
 // nforms counts the nodes that get a non-default form, ncb those whose form involves a user callback.
 func randomForms(seed int64, nforms, ncb *int) func(n *Node, first bool) string {
@@ -211,7 +221,7 @@ func randomForms(seed int64, nforms, ncb *int) func(n *Node, first bool) string 
 					d = "funcvariant" // Commentf
 				}
 			case n.K == "tok" && n.T == "id" && n.V != "":
-				if f, has := pkgFuncs[title(n.V)]; has && r.Intn(2) == 0 && reflect.TypeOf(f).NumIn() == 0 && types.Universe.Lookup(n.V) != nil {
+				if f, has := pkgFuncs[title(n.V)]; has && r.Intn(2) == 0 && reflect.TypeOf(f).NumIn() == 0 && isPlainPredeclared(n.V) {
 					d = []string{"helper", "helperfunc"}[r.Intn(2)] // helperfunc: as a package function when it is the first item
 				}
 			}
